@@ -4,6 +4,7 @@
 package main
 
 import (
+	"bytes"
 	"fmt"
 	"os"
 	"path/filepath"
@@ -40,6 +41,39 @@ func refCount(size int64, chunk uint32) (uint64, bool) {
 	return q, q <= 0xFFFFFFFF
 }
 
+// checkLateWrites: every chunk written through the receiver's late-chunk path, in reverse
+// order, must tile the file exactly.
+func checkLateWrites(c caseT, count uint32) {
+	path := filepath.Join(scratch, "late.bin")
+	want := make([]byte, c.Size)
+	for i := range want {
+		want[i] = byte(i*7 + 1)
+	}
+	if err := os.WriteFile(path, bytes.Repeat([]byte{0xEE}, int(c.Size)), 0644); err != nil {
+		res.InfraError("%v", err)
+		return
+	}
+	for k := int64(count) - 1; k >= 0; k-- {
+		lo := k * int64(c.Chunk)
+		hi := lo + int64(c.Chunk)
+		if hi > c.Size {
+			hi = c.Size
+		}
+		if err := transfer.VerifWriteLateChunk(path, c.Chunk, uint32(k), want[lo:hi]); err != nil {
+			violate("writeLateChunk", "error", c, fmt.Sprintf("writeLateChunk(size %d, chunk %d, index %d): %v", c.Size, c.Chunk, k, err))
+			return
+		}
+	}
+	got, _ := os.ReadFile(path)
+	if !bytes.Equal(got, want) {
+		i := 0
+		for i < len(got) && i < len(want) && got[i] == want[i] {
+			i++
+		}
+		violate("writeLateChunk", "offset", c, fmt.Sprintf("size %d chunk %d: the chunks written through the late-chunk path do not tile the file (length %d, first difference at byte %d)", c.Size, c.Chunk, len(got), i))
+	}
+}
+
 func checkPair(c caseT, indices []uint32, allIndices bool, withSidecar bool) {
 	res.Eval()
 	want64, fits := refCount(c.Size, c.Chunk)
@@ -49,6 +83,9 @@ func checkPair(c caseT, indices []uint32, allIndices bool, withSidecar bool) {
 	want := uint32(want64)
 	if c.Size%int64(c.Chunk) != 0 || want != 1 {
 		res.Nontrivial(fmt.Sprintf("%d/%d", c.Size, c.Chunk))
+	}
+	if allIndices && c.Size <= 48 && c.Chunk <= 12 {
+		checkLateWrites(c, want)
 	}
 	got := transfer.VerifChunkTotal(c.Size, c.Chunk)
 	if got != want {
